@@ -134,10 +134,11 @@ def classify(res, gen, gen_path):
         status = 'violation'
     if status == 'ok' and (res['rc'] != 0 or errors > 0):
         status = 'undecided'
-    # a verification failure outside any extracted function (prelude/lemma) is a machinery problem
+    # a verification failure outside any extracted function (prelude / lemma) is a machinery problem
+    # UNLESS the failing clause carries a property tag (lemmas over text captured from the source)
     if status == 'violation':
         ver = [f for f in failures if f['kind'] == 'verification']
-        if all(f['function'] is None for f in ver):
+        if all(f['function'] is None and not re.search(r'//\s*\[C\d+', f.get('text', '')) for f in ver):
             status = 'undecided'
     per_fn = {}
     smt_ms = 0
